@@ -488,6 +488,35 @@ def run_case(ck, desc):
                     if not (abs(float(og[k]) - ref) <= 256 * eps * abs(ref) + 4 * np.finfo(float).eps * abs(ref)):
                         ck.violation("elementwise", {"fn": desc["fn"], "k": int(k), "p": float(keep_[k]), "array": float(og[k]), "scalar": ref, "array_has_blank_cells_elsewhere": True}, desc)
                         break
+    # gaps marked the numpy way: a MASKED array (the hidden data under the mask are whatever the logger wrote: 0,
+    # -999.25). Element by element means: where the scalar call on m[i] answers "masked", the array's cell is masked
+    # too; the valid cells are what they were
+    if view.shape[0] >= 4 and view.dtype.kind == "f":
+        data_ = np.array(view, copy=True)
+        mask_ = np.zeros(data_.shape, dtype=bool)
+        mask_[[1, data_.shape[0] // 2]] = True
+        data_[1], data_[data_.shape[0] // 2] = 0.0, -999.25
+        marr = np.ma.masked_array(data_, mask=mask_)
+        try:
+            with np.errstate(all="ignore"), warnings.catch_warnings():
+                warnings.simplefilter("ignore")
+                om = arr_call(marr)
+                ref_masked = sc_call(marr[1])
+        except Exception as e:  # noqa: BLE001
+            ck.count(f"masked_arrays_not_accepted.{type(e).__name__}")
+            om = None
+        if om is not None and np.shape(om) == marr.shape:
+            ck.count("masked_arrays")
+            if np.ma.is_masked(ref_masked):
+                got_mask = np.ma.getmaskarray(om) if isinstance(om, np.ma.MaskedArray) else np.zeros(marr.shape, dtype=bool)
+                if not np.array_equal(got_mask, mask_):
+                    ck.violation("elementwise", {"fn": desc["fn"], "form": "masked array", "what": "the scalar call on a masked element answers masked; the array's cells at the gaps are not masked", "cells_masked_in_result": int(got_mask.sum()), "cells_masked_in_input": int(mask_.sum()), "value_over_a_gap": float(np.asarray(om)[1])}, desc)
+            vals_ = np.ma.getdata(om) if isinstance(om, np.ma.MaskedArray) else np.asarray(om)
+            for k in np.flatnonzero(~mask_)[:8]:
+                ref = float(sc_call(float(data_[k])))
+                if not (abs(float(vals_[k]) - ref) <= 256 * eps * abs(ref) + 4 * np.finfo(float).eps * abs(ref)):
+                    ck.violation("elementwise", {"fn": desc["fn"], "form": "masked array", "k": int(k), "p": float(data_[k]), "array": float(vals_[k]), "scalar": ref}, desc)
+                    break
     # second call on the SAME buffer after the caller has overwritten its contents in place
     if view.shape[0] >= 2 and view.dtype.kind == "f" and not read_only:
         arr_call(view)  # (the call right before the edit sees this very array object - nothing in between)
